@@ -11526,6 +11526,289 @@ let gen_md_doc m title cmd conts lines code =
     (max_bt (S (S O)) (md_block_text cmd conts (gen_body m lines code)))),
     None, [], (Some ((cmd, conts), (gen_body m lines code))), [])) :: [])
 
+(** val is_az : n -> bool **)
+
+let is_az c =
+  (||)
+    ((&&) (N.leb (Npos (XI (XO (XO (XO (XO (XI XH))))))) c)
+      (N.leb c (Npos (XO (XI (XO (XI (XI (XI XH)))))))))
+    ((&&) (N.leb (Npos (XI (XO (XO (XO (XO (XO XH))))))) c)
+      (N.leb c (Npos (XO (XI (XO (XI (XI (XO XH)))))))))
+
+(** val is_09 : n -> bool **)
+
+let is_09 c =
+  (&&) (N.leb (Npos (XO (XO (XO (XO (XI XH)))))) c)
+    (N.leb c (Npos (XI (XO (XO (XI (XI XH)))))))
+
+(** val keeps_escape : n -> bool **)
+
+let keeps_escape c =
+  (||)
+    (existsb (N.eqb c) ((Npos (XI (XI (XO (XI (XI (XO XH))))))) :: ((Npos (XI
+      (XO (XI (XI (XI (XO XH))))))) :: ((Npos (XI (XI (XO (XI (XI (XI
+      XH))))))) :: ((Npos (XI (XO (XI (XI (XI (XI XH))))))) :: ((Npos (XO (XO
+      (XO (XI (XO XH)))))) :: ((Npos (XI (XO (XO (XI (XO XH)))))) :: ((Npos
+      (XO (XO (XI (XI (XI (XI XH))))))) :: ((Npos (XI (XI (XI (XI (XI
+      XH)))))) :: ((Npos (XO (XI (XO (XI (XO XH)))))) :: ((Npos (XI (XI (XO
+      (XI (XO XH)))))) :: ((Npos (XI (XO (XI (XI (XO XH)))))) :: ((Npos (XO
+      (XI (XI (XI (XO XH)))))) :: ((Npos (XO (XI (XI (XI (XI (XO
+      XH))))))) :: ((Npos (XO (XO (XI (XO (XO XH)))))) :: ((Npos (XO (XO (XI
+      (XI (XI (XO XH))))))) :: [])))))))))))))))) (is_az c)
+
+(** val cleanup : n list -> n list **)
+
+let rec cleanup = function
+| [] -> []
+| c :: r ->
+  if N.eqb c (Npos (XO (XO (XI (XI (XI (XO XH)))))))
+  then (match r with
+        | [] -> (Npos (XO (XO (XI (XI (XI (XO XH))))))) :: []
+        | c2 :: r2 ->
+          app
+            (if keeps_escape c2
+             then (Npos (XO (XO (XI (XI (XI (XO XH))))))) :: (c2 :: [])
+             else c2 :: []) (cleanup r2))
+  else c :: (cleanup r)
+
+(** val take_digits : n list -> n list * n list **)
+
+let rec take_digits s = match s with
+| [] -> ([], [])
+| c :: r ->
+  if is_09 c
+  then let (d, rest) = take_digits r in ((c :: d), rest)
+  else ([], s)
+
+(** val quantifier_body : n list -> (n list * n list) option **)
+
+let quantifier_body s =
+  let (d1, r1) = take_digits s in
+  (match d1 with
+   | [] -> None
+   | _ :: _ ->
+     (match r1 with
+      | [] -> None
+      | n0 :: r2 ->
+        (match n0 with
+         | N0 -> None
+         | Npos p ->
+           (match p with
+            | XI p0 ->
+              (match p0 with
+               | XO p1 ->
+                 (match p1 with
+                  | XI p2 ->
+                    (match p2 with
+                     | XI p3 ->
+                       (match p3 with
+                        | XI p4 ->
+                          (match p4 with
+                           | XI p5 ->
+                             (match p5 with
+                              | XH -> Some (d1, r2)
+                              | _ -> None)
+                           | _ -> None)
+                        | _ -> None)
+                     | _ -> None)
+                  | _ -> None)
+               | _ -> None)
+            | XO p0 ->
+              (match p0 with
+               | XO p1 ->
+                 (match p1 with
+                  | XI p2 ->
+                    (match p2 with
+                     | XI p3 ->
+                       (match p3 with
+                        | XO p4 ->
+                          (match p4 with
+                           | XH ->
+                             let (d2, r3) = take_digits r2 in
+                             (match d2 with
+                              | [] -> None
+                              | _ :: _ ->
+                                (match r3 with
+                                 | [] -> None
+                                 | n1 :: rest ->
+                                   (match n1 with
+                                    | N0 -> None
+                                    | Npos p5 ->
+                                      (match p5 with
+                                       | XI p6 ->
+                                         (match p6 with
+                                          | XO p7 ->
+                                            (match p7 with
+                                             | XI p8 ->
+                                               (match p8 with
+                                                | XI p9 ->
+                                                  (match p9 with
+                                                   | XI p10 ->
+                                                     (match p10 with
+                                                      | XI p11 ->
+                                                        (match p11 with
+                                                         | XH ->
+                                                           Some
+                                                             ((app d1
+                                                                (app ((Npos
+                                                                  (XO (XO (XI
+                                                                  (XI (XO
+                                                                  XH)))))) :: [])
+                                                                  d2)), rest)
+                                                         | _ -> None)
+                                                      | _ -> None)
+                                                   | _ -> None)
+                                                | _ -> None)
+                                             | _ -> None)
+                                          | _ -> None)
+                                       | _ -> None))))
+                           | _ -> None)
+                        | _ -> None)
+                     | _ -> None)
+                  | _ -> None)
+               | _ -> None)
+            | XH -> None))))
+
+(** val lT4 : n list **)
+
+let lT4 =
+  (Npos (XO (XO (XI (XI (XI XH)))))) :: ((Npos (XO (XO (XI (XI (XI
+    XH)))))) :: ((Npos (XO (XO (XI (XI (XI XH)))))) :: ((Npos (XO (XO (XI (XI
+    (XI XH)))))) :: [])))
+
+(** val gT4 : n list **)
+
+let gT4 =
+  (Npos (XO (XI (XI (XI (XI XH)))))) :: ((Npos (XO (XI (XI (XI (XI
+    XH)))))) :: ((Npos (XO (XI (XI (XI (XI XH)))))) :: ((Npos (XO (XI (XI (XI
+    (XI XH)))))) :: [])))
+
+(** val mark_quantifiers : nat -> n list -> n list **)
+
+let rec mark_quantifiers fuel s =
+  match fuel with
+  | O -> s
+  | S f ->
+    (match s with
+     | [] -> []
+     | c :: r ->
+       if N.eqb c (Npos (XI (XI (XO (XI (XI (XI XH)))))))
+       then (match quantifier_body r with
+             | Some p ->
+               let (inner, rest) = p in
+               app lT4 (app inner (app gT4 (mark_quantifiers f rest)))
+             | None -> c :: (mark_quantifiers f r))
+       else c :: (mark_quantifiers f r))
+
+(** val escape_curly : n list -> n list **)
+
+let rec escape_curly = function
+| [] -> []
+| c :: r ->
+  if N.eqb c (Npos (XO (XO (XI (XI (XI (XO XH)))))))
+  then (match r with
+        | [] -> (Npos (XO (XO (XI (XI (XI (XO XH))))))) :: []
+        | c2 :: r2 ->
+          (Npos (XO (XO (XI (XI (XI (XO XH))))))) :: (c2 :: (escape_curly r2)))
+  else if (||) (N.eqb c (Npos (XI (XI (XO (XI (XI (XI XH))))))))
+            (N.eqb c (Npos (XI (XO (XI (XI (XI (XI XH))))))))
+       then (Npos (XO (XO (XI (XI (XI (XO XH))))))) :: (c :: (escape_curly r))
+       else c :: (escape_curly r)
+
+(** val pstarts : n list -> n list -> bool **)
+
+let rec pstarts p l =
+  match p with
+  | [] -> true
+  | a :: p' ->
+    (match l with
+     | [] -> false
+     | b :: l' -> (&&) (N.eqb a b) (pstarts p' l'))
+
+(** val until_gt4 : n list -> n list -> (n list * n list) option **)
+
+let rec until_gt4 s acc_rev =
+  match s with
+  | [] -> None
+  | c :: r ->
+    if N.eqb c (Npos (XO (XI (XO XH))))
+    then None
+    else if pstarts gT4 r
+         then Some ((rev (c :: acc_rev)), (skipn (S (S (S (S O)))) r))
+         else until_gt4 r (c :: acc_rev)
+
+(** val restore_quantifiers : nat -> n list -> n list **)
+
+let rec restore_quantifiers fuel s =
+  match fuel with
+  | O -> s
+  | S f ->
+    (match s with
+     | [] -> []
+     | c :: r ->
+       if pstarts lT4 s
+       then (match until_gt4 (skipn (S (S (S (S O)))) s) [] with
+             | Some p ->
+               let (inner, rest) = p in
+               app ((Npos (XI (XI (XO (XI (XI (XI XH))))))) :: [])
+                 (app inner
+                   (app ((Npos (XI (XO (XI (XI (XI (XI XH))))))) :: [])
+                     (restore_quantifiers f rest)))
+             | None -> c :: (restore_quantifiers f r))
+       else c :: (restore_quantifiers f r))
+
+(** val misused_repetition : n list -> n list **)
+
+let misused_repetition s =
+  let a = mark_quantifiers (S (length s)) s in
+  let b = escape_curly a in restore_quantifiers (S (length b)) b
+
+(** val class_closes_later : n -> n list -> bool **)
+
+let rec class_closes_later prev = function
+| [] -> false
+| c :: r ->
+  if negb (N.eqb prev (Npos (XO (XO (XI (XI (XI (XO XH))))))))
+  then if N.eqb c (Npos (XI (XO (XI (XI (XI (XO XH)))))))
+       then true
+       else if N.eqb c (Npos (XI (XI (XO (XI (XI (XO XH)))))))
+            then false
+            else class_closes_later c r
+  else class_closes_later c r
+
+(** val misused_class : bool -> n list -> n list **)
+
+let rec misused_class in_cc = function
+| [] -> []
+| c :: r ->
+  if N.eqb c (Npos (XO (XO (XI (XI (XI (XO XH)))))))
+  then c :: (match r with
+             | [] -> []
+             | c2 :: r2 -> c2 :: (misused_class in_cc r2))
+  else if N.eqb c (Npos (XI (XI (XO (XI (XI (XO XH)))))))
+       then app
+              (if in_cc
+               then (Npos (XO (XO (XI (XI (XI (XO XH))))))) :: ((Npos (XI (XI
+                      (XO (XI (XI (XO XH))))))) :: [])
+               else (Npos (XI (XI (XO (XI (XI (XO XH))))))) :: [])
+              (misused_class true r)
+       else if N.eqb c (Npos (XI (XO (XI (XI (XI (XO XH)))))))
+            then if (&&) in_cc
+                      (negb
+                        (class_closes_later (Npos (XI (XO (XI (XI (XI (XO
+                          XH))))))) r))
+                 then (Npos (XI (XO (XI (XI (XI (XO
+                        XH))))))) :: (misused_class false r)
+                 else (Npos (XO (XO (XI (XI (XI (XO XH))))))) :: ((Npos (XI
+                        (XO (XI (XI (XI (XO
+                        XH))))))) :: (misused_class in_cc r))
+            else c :: (misused_class in_cc r)
+
+(** val regex_prepare : n list -> n list **)
+
+let regex_prepare e =
+  misused_class false (misused_repetition (cleanup e))
+
 (** val make_exp : bool -> bool -> (nat -> bool) -> nat exp **)
 
 let make_exp o m f =
